@@ -499,17 +499,24 @@ def getDivider (a : Attrs) : Option DSpec :=
     else (accessDivider "set").map DSpec.fn
   | d => d
 
-/-- `Store.topology_state(topology)` for a flat topology, from the node at `pos` below `root` -/
-def topologyState (h : Heap) (root : Store) (pos : Path) :
-    List (String × Path) → Except Err KVs
-  | [] => .ok []
-  | (k, p) :: rest =>
+/-- `Store.topology_state(topology)` for a flat topology, from the node at `pos` below `root`: the
+entries are filled in in topology order; a `'*'` entry with a plain path contributes one entry per
+child of the node the path leads to (`state[child] = child_node.get_value()`), any other key the value
+of the node its path leads to -/
+def topologyStateAux (h : Heap) (root : Store) (pos : Path) :
+    List (String × Path) → KVs → Except Err KVs
+  | [], acc => .ok acc
+  | (k, p) :: rest, acc =>
     match root.resolve (normalize (pos ++ p)) with
     | some n =>
-      match topologyState h root pos rest with
-      | .ok r => .ok (KV.set k (n.getValue h) r)
-      | .error e => .error e
+      let acc' :=
+        if k = "*" then n.inner.foldl (fun a kv => KV.set kv.1 (kv.2.getValue h) a) acc
+        else KV.set k (n.getValue h) acc
+      topologyStateAux h root pos rest acc'
     | none => .error .exception
+
+def topologyState (h : Heap) (root : Store) (pos : Path) (t : List (String × Path)) : Except Err KVs :=
+  topologyStateAux h root pos t []
 
 /-- the two results of a divider as divided-state leaves.  `divide_set` / `divide_set_value` hand
 the same object to both daughters: when it is mutable it goes to the heap. -/
